@@ -45,7 +45,9 @@ TRUSTED = [
     'the in-Coq correspondence on random trees (class tree of the conjugates is compared, not only values); the convex_conj '
     'rules themselves are regenerated from source and cconj is PROVED to satisfy them (cconj_generated)',
     'np.sqrt is a parameter of the model (executed as a 30-digit rational approximation exact on perfect squares; '
-    'in proofs any function with sqrtf(a)^2 = a, sqrtf(a) >= 0 on a >= 0)',
+    'in proofs any function with sqrtf(a)^2 = a, sqrtf(a) >= 0 on a >= 0); for value on sqrt-free trees and for cconj the '
+    'Q-run is PROVED to be the rational restriction of the R-model (C08/Transfer.v); for prox/grad and trees with a square '
+    'root the Q/R link of the polymorphic definitions is assumed',
     'KullbackLeibler pairs, GroupL1Norm pair, NuclearNorm pair, general-p LpNorm, QuadraticForm with a matrix '
     'operator: not modelled, probed only',
 ]
